@@ -275,6 +275,65 @@ pub fn validate(f: &PFile) -> Vec<String> {
     errs
 }
 
+/// Validity of a set of .proto files that import each other: every file on its own (`validate`)
+/// and every reference to a type that is not defined in the file itself must be the
+/// package-qualified name of a type defined in another file of the set, which the file imports
+/// (protobuf resolves an unqualified name only in the own package and its parents).
+pub fn validate_set(files: &[(String, PFile)]) -> Vec<String> {
+    let mut errs = Vec::new();
+    let mut global: BTreeMap<String, &str> = BTreeMap::new(); // pkg.Type -> defining file
+    for (fname, f) in files {
+        for d in &f.defs {
+            let n = match d {
+                PDef::Message { name, .. } | PDef::Enum { name, .. } => name,
+            };
+            if global.insert(format!("{}.{}", f.package, n), fname.as_str()).is_some() {
+                errs.push(format!("{fname}: type `{}.{}` is defined in two files", f.package, n));
+            }
+        }
+    }
+    for (fname, f) in files {
+        for e in validate(f) {
+            errs.push(format!("{fname}: {e}"));
+        }
+        for imp in &f.imports {
+            let imp = imp.trim_matches('"');
+            if !files.iter().any(|(n, _)| n == imp) {
+                errs.push(format!("{fname}: imports `{imp}`, which is not a generated file"));
+            }
+        }
+        let local: Vec<&str> = f
+            .defs
+            .iter()
+            .map(|d| match d {
+                PDef::Message { name, .. } | PDef::Enum { name, .. } => name.as_str(),
+            })
+            .collect();
+        for d in &f.defs {
+            if let PDef::Message { name, fields } = d {
+                for fl in fields {
+                    if fl.ty == "oneof" || SCALARS.contains(&fl.ty.as_str()) || local.contains(&fl.ty.as_str()) {
+                        continue;
+                    }
+                    let own_qualified = fl.ty.strip_prefix(&format!("{}.", f.package)).map(|t| local.contains(&t)).unwrap_or(false);
+                    if own_qualified {
+                        continue;
+                    }
+                    match global.get(fl.ty.trim_start_matches('.')) {
+                        Some(def_file) => {
+                            if !f.imports.iter().any(|i| i.trim_matches('"') == *def_file) {
+                                errs.push(format!("{fname}: message {name}: field `{}` uses `{}` of {def_file} without importing that file", fl.name, fl.ty));
+                            }
+                        }
+                        None => errs.push(format!("{fname}: message {name}: field `{}` has type `{}`, which is not defined in the file nor the qualified name of a type of an imported file", fl.name, fl.ty)),
+                    }
+                }
+            }
+        }
+    }
+    errs
+}
+
 // ---------------------------------------------------------------------------------------------
 // wire decoder
 
